@@ -34,6 +34,7 @@ func allProps() []*PropSpec {
 		propC08(),
 		propC07(),
 		propC06(),
+		propC18(),
 	}
 }
 
@@ -121,6 +122,31 @@ func propC06() *PropSpec {
 			js = append(js, jobsN("xml", "VerifXMLAttrAny", pick(rng(1, 2), rng(1, 3)), "<a b=\"V\"/>, V = n arbitrary bytes (256 values)")...)
 			js = append(js, jobsN("xml", "VerifXMLProlog", pick(rng(0, 6), rng(0, 7)), "XML declaration/DOCTYPE/comment prolog + <a H>t</a>")...)
 			js = append(js, Job{Pkg: "xml", Fn: "VerifXMLTwin", N: 2, ExpectFail: true, Desc: "vacuity twin"})
+			return js
+		},
+	}
+}
+
+func propC18() *PropSpec {
+	return &PropSpec{
+		ID:   "C18",
+		Rule: "one case = one feasible path of Mediatype / DataURI (real parse.DataURI, DecodeURL, EncodeURL, encoding/base64, M.Bytes) + RFC 2397/3986/4648 reference decoder, over ALL byte strings of the stated length (256 values per byte); non-trivial = completes with a distinct symbolic output",
+		Assumptions: []string{"quoted strings in media types are terminated (even number of double quotes)", "DataURI: input has the shape data:<header>,<payload> with a strictly valid base64 payload when ;base64 is given", "valid percent-encoding = RFC 3986 unreserved/reserved characters (without #) and %HH", "the documented escape table parse.DataURIEncodingTable is used to compute the length of the percent-encoded alternative"},
+		Outside:     []string{"payloads/headers longer than the bound", "media types beyond the listed heads in the payload harness"},
+		Stubs:       []string{"sync.RWMutex methods are no-ops (sequential)", "registered minifier = harness stub that drops 'x' and doubles 'y'"},
+		Jobs: func(tier string) []Job {
+			var js []Job
+			q := tier == "quick"
+			pick := func(a, b []int) []int {
+				if q {
+					return a
+				}
+				return b
+			}
+			js = append(js, jobsN(".", "VerifMediatype", pick(rng(0, 5), rng(0, 6)), "Mediatype on all byte strings of n bytes")...)
+			js = append(js, jobsN(".", "VerifDataURIRaw", pick(rng(1, 4), rng(1, 4)), "data: + n arbitrary bytes, empty registry")...)
+			js = append(js, jobsN(".", "VerifDataURIPayload", pick(rng(0, 2), rng(0, 3)), "10 headers x n arbitrary payload bytes x stub registered or not")...)
+			js = append(js, Job{Pkg: ".", Fn: "VerifDataURITwin", N: 2, ExpectFail: true, Desc: "vacuity twin"})
 			return js
 		},
 	}
